@@ -408,7 +408,23 @@ fn process_tier(w: &Work, tier: &str, seed: u64) -> (u64, Vec<ProcFinding>, Vec<
                 }
                 let input = wd.join(&w.sets[si].start);
                 let output = top.join("out.rs");
+                let _ = std::fs::create_dir_all(top.join("tmp"));
                 let plan = PlanSpec { root: top.clone(), input: input.clone(), output: output.clone(), dir: wd.clone(), entropy: (entropy, 0x0d), dirperm, dirorder: vec![], faults: vec![], stderr_full: false, rust_log: [None, Some("debug"), Some("trace")][(entropy % 3) as usize], tmpdir: Some(top.join("tmp")) };
+                if e % 2 == 1 {
+                    // process-level history: another input is converted first by a process sharing cwd and TMPDIR
+                    // (anything the tool keeps on disk between runs would show)
+                    let oi = (si + 1 + e as usize) % w.sets.len();
+                    let w0 = top.join("w0");
+                    let _ = std::fs::create_dir_all(&w0);
+                    for (n, b) in &w.sets[oi].files {
+                        let _ = std::fs::write(w0.join(n), b);
+                    }
+                    let in0 = w0.join(&w.sets[oi].start);
+                    let out0 = top.join("warm.rs");
+                    let p0 = PlanSpec { input: in0.clone(), output: out0.clone(), dir: w0.clone(), ..plan.clone() };
+                    let a0 = vec!["-i".to_string(), in0.to_string_lossy().to_string(), "-o".to_string(), out0.to_string_lossy().to_string()];
+                    let _ = cli::run_zeep(&top, &top, &a0, &p0, "p0");
+                }
                 let args = vec!["-i".to_string(), input.to_string_lossy().to_string(), "-o".to_string(), output.to_string_lossy().to_string()];
                 let run = cli::run_zeep(&top, &top, &args, &plan, "p");
                 let bytes = std::fs::read(&output).ok();
@@ -681,7 +697,7 @@ fn main() {
         "seeds": [report.seed],
         "faults_fired": {"n/a": "C12 has no fault dimension; the simulator owns entropy, order and history instead"},
         "simulated_time_ms": "n/a: no clock is read",
-        "real_components": ["zeep_lib::reader::{Files, FilesToRead, XmlReader::read_xml}", "zeep_lib::utils::read_input_file_and_xsd_files_at_path", "the write_xml tree", "the zeep binary (process tier)"],
+        "real_components": ["zeep_lib::reader::{Files, FilesToRead, XmlReader::read_xml}", "zeep_lib::utils::read_input_file_and_xsd_files_at_path", "the write_xml tree", "the zeep binary (process tier: fresh processes under (hash key, directory order, RUST_LOG), half of them after another conversion sharing cwd and TMPDIR)"],
         "stub_components": ["entropy (getrandom) and readdir order via libverifsim.so"],
         "batch_digest": format!("{:016x}", stats.digest),
         "determinism_selfcheck": {"runs_repeated": slice.len(), "worker_counts": [simkernel::workers(), 3], "mismatches": mism},
